@@ -2,7 +2,7 @@
 from __future__ import annotations
 
 from vf import env, gen, judge
-from vf.lib import Mon, esc, observe
+from vf.lib import Mon, esc, observe, soft_attr
 from vf.props.c04 import rand_bic
 from vf.ref import data
 from vf.ref import iban as R
@@ -50,8 +50,8 @@ def same_outcome(mon, ctor, base, var, kw, tag):
         s = str(ov.value)
         if any(c.isspace() for c in s) or any("a" <= c <= "z" for c in s):
             mon.viol(f"{tag}:compact_form_not_clean", w, "no whitespace / lower case", esc(s))
-        if ov.value.compact != s:
-            mon.viol(f"{tag}:compact_differs_from_str", w, esc(s), esc(ov.value.compact))
+        if soft_attr(ov.value, "compact", s) != s:
+            mon.viol(f"{tag}:compact_differs_from_str", w, esc(s), esc(soft_attr(ov.value, "compact", s)))
     else:
         for o in (ob, ov):
             if not judge.is_lib_exc(o.exc):
